@@ -6,8 +6,14 @@ KIND_OF = {"none": "Ok"}
 ERRMAP = {"Cyclic": "Cyclic", "NotFound": "NotFound", "Syntax": "Syntax", "Io": "Io", "WrongType": "Fault"}
 
 
+def edge(n, i):
+    """the import set through which library n imports library i: every form of import set is an edge of the graph"""
+    k = (3 * n + i) % 5
+    return ["(l%d)" % i, "(only (l%d) v%d)" % (i, i), "(prefix (l%d) p%d-)" % (i, n), "(rename (l%d) (v%d w%d))" % (i, i, i), "(except (l%d) v%d)" % (i, i)][k]
+
+
 def lib_source(n, imports, kind):
-    imps = "".join(" (l%d)" % i for i in imports)
+    imps = "".join(" " + edge(n, i) for i in imports)
     body = "(define v%d (car %d))" % (n, n) if kind == "fault" else "(define v%d %d)" % (n, n)
     name = "zz%d" % n if kind == "wrongname" else "l%d" % n
     src = "(define-library (%s)\n  (import (scheme base)%s)\n  (export v%d)\n  (begin %s))\n" % (name, imps, n, body)
